@@ -266,7 +266,7 @@ impl Check for C02 {
         "E1 single-node engine: real KeyspaceGroup + keyspace actors + ConsistencyService handlers on a paused tokio runtime over SimStorage with a fault plan"
     }
     fn rule(&self) -> &'static str {
-        "Cases: (a) fault-position sweep: for fixed seeded request histories, every mutating storage call position 1..16 x every k in 0..3 (single call fails with no effect; bulk call applies exactly k documents, reports them, fails); (b) seeded histories of 3-30 set/multi_set/del/multi_del/batch/purge requests and idle hours (the group's own periodic purge pass then runs, possibly into an injected remove_tombstones failure) through the actor mailbox (both sources) or the ConsistencyService handlers, timestamps from 1-4 origins near 'now', hours old or in the future, bulk calls sharing one timestamp, a fifth of the histories with bulk calls naming one id more than once (any timestamp order), sequential or in concurrent groups of 2-4 with storage latency, random fault plans. One case in 48 is a full E2 cluster scenario (C01's generator, incl. the burst family) judged by the same oracle on every node at the final quiescent point. Oracle after every request group: Serialize reply (validated decode) lists live == store live rows and tombstones == store tombstone rows, per keyspace. Non-trivial = >= 3 requests and >= 2 storage writes. Distinct = hash of the storage-call trace and per-group set fingerprints."
+        "Cases: (a) fault-position sweep: for fixed seeded request histories, every mutating storage call position 1..16 x every k in 0..3 (single call fails with no effect; bulk call applies exactly k documents, reports them, fails); (b) seeded histories of 3-30 set/multi_set/del/multi_del/batch/purge requests and idle hours (the group's own periodic purge pass then runs, possibly into an injected remove_tombstones failure) through the actor mailbox (both sources) or the ConsistencyService handlers, timestamps from 1-4 origins near 'now', hours old or in the future, bulk calls sharing one timestamp, a fifth of the histories with bulk calls naming one id more than once (any timestamp order), sequential or in concurrent groups of 2-4 with storage latency, random fault plans. One case in 47 is a full E2 cluster scenario (C01's generator, incl. the burst family) judged by the same oracle on every node at the final quiescent point. Oracle after every request group: Serialize reply (validated decode) lists live == store live rows and tombstones == store tombstone rows, per keyspace. Non-trivial = >= 3 requests and >= 2 storage writes. Distinct = hash of the storage-call trace and per-group set fingerprints."
     }
     fn assumptions(&self) -> Vec<String> {
         vec![
